@@ -1020,6 +1020,9 @@ func (x *X) fireSiteAsserts(fr *frame, in ssa.Instruction) {
 		} else if !strings.Contains(line, sa.At) {
 			continue
 		}
+		if sa.Ord > 0 && x.prog.lineOrdinal(fr.fn, pos, sa.At) != sa.Ord {
+			continue
+		}
 		key := fmt.Sprintf("%d|%d", i, x.prog.Fset.Position(pos).Line)
 		if fr.fired == nil {
 			fr.fired = map[string]bool{}
@@ -1057,7 +1060,11 @@ func (x *X) fireSiteAsserts(fr *frame, in ssa.Instruction) {
 		x.polarity = 1
 		x.arbs = nil
 		goal := x.evalBool(env, sa.Expr)
-		x.oblige("assert", fmt.Sprintf("at %q: %s", sa.At, sa.Expr), pos, goal)
+		at := fmt.Sprintf("%q", sa.At)
+		if sa.Ord > 0 {
+			at += fmt.Sprintf("#%d", sa.Ord)
+		}
+		x.oblige("assert", fmt.Sprintf("at %s: %s", at, sa.Expr), pos, goal)
 	}
 }
 
